@@ -129,6 +129,8 @@ func (d *DHCPv4) DecodeFromBytes(data []byte, df gopacket.DecodeFeedback) error 
 		return fmt.Errorf("DHCPv4 length %d too short", len(data))
 	}
 	d.Options = d.Options[:0]
+	// also for a message without options and for a reused layer
+	d.BaseLayer = BaseLayer{Contents: data}
 	d.Operation = DHCPOp(data[0])
 	d.HardwareType = LinkType(data[1])
 	d.HardwareLen = data[2]
@@ -177,8 +179,6 @@ func (d *DHCPv4) DecodeFromBytes(data []byte, df gopacket.DecodeFeedback) error 
 			start += int(o.Length) + 2
 		}
 	}
-
-	d.Contents = data
 
 	return nil
 }
